@@ -396,13 +396,15 @@ pub fn find_op(a: &[&str]) -> Option<String> {
     let hay = parse_bytes(a[7])?;
     let pn = Placed::new(&needle, NEEDLE_BASE);
     let ph = Placed::new(&hay, usz(a[6])?);
-    let f = build(a[1], a[2], pn.slice())?;
+    let (f, ba) = crate::measured_build(|| build(a[1], a[2], pn.slice()));
+    let f = f?;
     crate::vreset();
     verif::register_region(ph.ptr(), hay.len());
     verif::register_region(pn.ptr(), needle.len());
     verif::set_tick_limit(crate::tick_limit(hay.len(), needle.len()));
     let ((r, s1, s2), allocs) =
         alloc_probe::measure(|| memchr::memmem::verif_hooks::find_with_state(&f, skips, skipped, ph.slice()));
+    let allocs = allocs + ba;
     Some(tail(format!("{}/{}:{}", fmt_opt(r), s1, s2), fmt_opt(naive_find(&hay, &needle)), allocs))
 }
 
@@ -452,12 +454,13 @@ pub fn rfind_op(a: &[&str]) -> Option<String> {
     let hay = parse_bytes(a[3])?;
     let pn = Placed::new(&needle, NEEDLE_BASE);
     let ph = Placed::new(&hay, usz(a[2])?);
-    let f = memchr::memmem::FinderRev::new(pn.slice());
+    let (f, ba) = crate::measured_build(|| memchr::memmem::FinderRev::new(pn.slice()));
     crate::vreset();
     verif::register_region(ph.ptr(), hay.len());
     verif::register_region(pn.ptr(), needle.len());
     verif::set_tick_limit(crate::tick_limit(hay.len(), needle.len()));
     let (r, allocs) = alloc_probe::measure(|| f.rfind(ph.slice()));
+    let allocs = allocs + ba;
     Some(tail(fmt_opt(r), fmt_opt(naive_rfind(&hay, &needle)), allocs))
 }
 
@@ -528,7 +531,8 @@ pub fn finditer_op(a: &[&str]) -> Option<String> {
     let ops = if a[6] == "-" { "" } else { a[6] };
     let pn = Placed::new(&needle, NEEDLE_BASE);
     let ph = Placed::new(&hay, usz(a[4])?);
-    let f = build(a[1], a[2], pn.slice())?;
+    let (f, ba) = crate::measured_build(|| build(a[1], a[2], pn.slice()));
+    let f = f?;
     crate::vreset();
     verif::set_trace(false);
     verif::register_region(ph.ptr(), hay.len());
@@ -538,7 +542,7 @@ pub fn finditer_op(a: &[&str]) -> Option<String> {
     let mut k = 0usize;
     let mut out = Vec::new();
     let mut oracle = Vec::new();
-    let mut search_allocs = 0u64;
+    let mut search_allocs = ba;
     let mut it: memchr::memmem::FindIter<'_, '_> = f.find_iter(ph.slice());
     let mut owned: Option<memchr::memmem::FindIter<'_, 'static>> = None;
     for ch in ops.chars() {
@@ -593,7 +597,7 @@ pub fn rfinditer_op(a: &[&str]) -> Option<String> {
     let ops = if a[4] == "-" { "" } else { a[4] };
     let pn = Placed::new(&needle, NEEDLE_BASE);
     let ph = Placed::new(&hay, usz(a[2])?);
-    let f = memchr::memmem::FinderRev::new(pn.slice());
+    let (f, ba) = crate::measured_build(|| memchr::memmem::FinderRev::new(pn.slice()));
     crate::vreset();
     verif::set_trace(false);
     verif::register_region(ph.ptr(), hay.len());
@@ -603,7 +607,7 @@ pub fn rfinditer_op(a: &[&str]) -> Option<String> {
     let mut k = 0usize;
     let mut out = Vec::new();
     let mut oracle = Vec::new();
-    let mut search_allocs = 0u64;
+    let mut search_allocs = ba;
     let mut it = f.rfind_iter(ph.slice());
     let mut owned: Option<memchr::memmem::FindRevIter<'_, 'static>> = None;
     for ch in ops.chars() {
